@@ -186,7 +186,9 @@ fn fixpoint(g1: &rssl::CompiledPipeline, label: &str, nontrivial: bool, key: u64
             let msg = first.split("error:").nth(1).unwrap_or(first).trim();
             // one root cause, one signature: `name < ... > (` is read as a template call by the RSSL parser
             let line = e.lines().nth(1).unwrap_or("");
-            if template_call_shape(line) && (msg.contains("non-function") || msg.contains("constant expression") || msg.contains("failed to parse") || msg.contains("not declared")) {
+            // (the constant-expression diagnostic carries no location: any line of that shape explains it)
+            let unlocated_shape = msg.contains("could not be evaluated as a constant expression") && !e.contains("main.rssl:") && t1.lines().any(template_call_shape);
+            if unlocated_shape || template_call_shape(line) && (msg.contains("non-function") || msg.contains("constant expression") || msg.contains("failed to parse") || msg.contains("not declared")) {
                 return Verdict::fail("emitted-text-rejected:template-call-ambiguity", format!("{}\n--- emitted text\n{}", e, t1));
             }
             return Verdict::fail(format!("emitted-text-rejected:{}", normalise_panic(msg)), format!("{}\n--- emitted text\n{}", e, t1));
